@@ -937,6 +937,12 @@ class SharesManager(BaseManager):
 
     def is_item_locked(self, item: SharedItem, username: str) -> bool:
         """Checks if the shared item is locked for the given ``username``"""
+        # Items moved between a parent and child shared directory keep a
+        # reference to the directory they were scanned for, the directory
+        # currently holding the item decides
+        for directory in self._shared_directories:
+            if item in directory.items:
+                return self.is_directory_locked(directory, username)
         return self.is_directory_locked(item.shared_directory, username)
 
     async def report_shares(self):
